@@ -48,6 +48,8 @@ type PegSpec struct {
 	Nullable map[string]bool
 	LeftRec  map[string]bool
 	First    map[string]firstSet
+	LemmaErrors []string
+	mu          sync.Mutex
 	ProvenRule map[string]bool
 	ProvenStar map[int]bool
 }
@@ -828,8 +830,13 @@ func (ps *PegSpec) ProveLemmas(unitPrelude string) (failed []string) {
 			go func(j *job) {
 				defer wg.Done()
 				defer func() { <-sem }()
-				v, _, _ := runOne(solverSpecs["z3-new"], j.query+"\n(check-sat)\n", 1)
+				v, out, _ := runOne(solverSpecs["z3-new"], j.query+"\n(check-sat)\n", 8)
 				j.ok = v == VUnsat
+				if v == VError {
+					ps.mu.Lock()
+					ps.LemmaErrors = append(ps.LemmaErrors, fmt.Sprintf("%s#%d: %s", j.rule, j.star, trunc(out, 300)))
+					ps.mu.Unlock()
+				}
 			}(j)
 		}
 		wg.Wait()
